@@ -9,20 +9,21 @@ import (
 // Grammar-directed generator of (template AST, data) pairs.
 
 type Profile struct {
-	Name     string
-	W        map[string]int // construct weights
-	MaxDepth int
-	MaxItems int
-	Letters  bool // escape letters on prints
-	Mods     bool // modifier chains on prints
-	PfxSfx   bool
-	Regions  bool
-	KeepFmt  bool // also generate keepFmt=true cases with newlines in text
-	Comments bool
-	BreakN   bool
-	Includes bool
-	Faults   bool // enumerate fault positions
-	CondHist bool // conditions preceded by other conditions (also on missing fields)
+	Name       string
+	W          map[string]int // construct weights
+	MaxDepth   int
+	MaxItems   int
+	Letters    bool // escape letters on prints
+	Mods       bool // modifier chains on prints
+	PfxSfx     bool
+	Regions    bool
+	RegionKind string // restrict regions to one kind
+	KeepFmt    bool   // also generate keepFmt=true cases with newlines in text
+	Comments   bool
+	BreakN     bool
+	Includes   bool
+	Faults     bool // enumerate fault positions
+	CondHist   bool // conditions preceded by other conditions (also on missing fields)
 }
 
 type scopeVar struct {
@@ -317,7 +318,11 @@ func trimTail(ns []*Ast) {
 	if len(ns) == 0 {
 		return
 	}
-	last := ns[len(ns)-1]
+	k := len(ns) - 1
+	for k > 0 && ns[k].K == "comment" {
+		k--
+	}
+	last := ns[k]
 	if last.K == "text" {
 		t := last.Text
 		for len(t) > 0 && (t[len(t)-1] == ' ' || t[len(t)-1] == '\t' || t[len(t)-1] == '\n') {
@@ -748,7 +753,11 @@ func (g *Gen) genItem(depth int) *Ast {
 		}
 		return &Ast{K: "exit"}
 	case "region":
-		a := &Ast{K: "region", Region: []string{"jsonquote", "htmlescape", "urlencode"}[r.Intn(3)]}
+		kinds := []string{"jsonquote", "htmlescape", "urlencode"}
+		if g.p.RegionKind != "" {
+			kinds = []string{g.p.RegionKind}
+		}
+		a := &Ast{K: "region", Region: kinds[r.Intn(len(kinds))]}
 		a.Body = g.genItems(depth+1, g.small())
 		return a
 	}
@@ -918,6 +927,13 @@ func (g *Gen) genCtx() *Ast {
 		g.tag("ctx:var:" + o.Kind)
 		if g.p.Mods && r.Chance(30) {
 			m := g.genMod()
+			var plain []AArg
+			for _, a := range m.Args {
+				if a.KVName == "" {
+					plain = append(plain, a) // the ctx tag's grammar has no braces: no key-value groups
+				}
+			}
+			m.Args = plain
 			for i := range m.Args {
 				// the ctx tag's grammar admits word characters only inside literals
 				if m.Args[i].Lit && m.Args[i].Text == "N/A" {
